@@ -351,6 +351,22 @@ func checkC13(c *Check) {
 	if nSize == 0 {
 		c.Bad(p.FuncKey(mW)+":size.store", p.FuncPos(mW), "Write() never updates size")
 	}
+	// every byte count the underlying writer reports is added, also when it comes with an error
+	isSizeStore := func(in ssa.Instruction) bool {
+		st, ok := in.(*ssa.Store)
+		return ok && fieldOf(strip(st.Addr)) == fSize
+	}
+	for _, u := range under["Write"] {
+		if u.Parent() != mW {
+			continue
+		}
+		in, path := Query{Fn: mW, Avoid: isSizeStore}.After(u, isReturn)
+		if in == nil {
+			c.OK(p.FuncKey(mW)+":size-on-every-path", p.Pos(u.Pos()), "every path from the underlying Write to return adds the reported count to size", numInstrs(mW))
+		} else {
+			c.Bad(p.FuncKey(mW)+":size-on-every-path", p.Pos(u.Pos()), "a path returns after the underlying Write without adding the forwarded byte count to size (e.g. a partial write reported together with an error)", blockPath(path))
+		}
+	}
 
 	// ---- R5 Flush
 	c.Rule("R5", "E1 guard-cut", "underlying Flush only after Written() held or WriteHeader(200) through the wrapper", 1)
